@@ -51,9 +51,17 @@ def gen_graph(chk: Check, name: str, consts: dict) -> graph.Graph:
 
 def hdr_from_consts(consts, param, tick):
     n = max(math.ceil(consts["Dur0"] / consts["Dt0"]) + int(consts["Incl0"]), 1)
-    return {"kind": consts["Kind0"], "dty": consts["Dty0"], "dtk": consts["Dt0"], "durk": consts["Dur0"],
-            "incl": consts["Incl0"], "E0": consts["E0"], "shape": (consts["E0"],), "param": param, "tick": tick,
-            "track_temporal": True}
+    dyadic = float(tick).hex().rstrip("0").endswith(("p", "x1.")) or math.log2(tick) == int(math.log2(tick))
+    hdr = {"kind": consts["Kind0"], "dty": consts["Dty0"], "dtk": consts["Dt0"], "durk": consts["Dur0"],
+           "incl": consts["Incl0"], "E0": consts["E0"], "shape": (consts["E0"],), "param": param, "tick": tick,
+           "track_temporal": dyadic}
+    if not dyadic:
+        # duration/dt is not exactly representable: give the constructor a duration whose
+        # quotient is half a step away from the rounding boundary (same record size)
+        dt_s = consts["Dt0"] * tick
+        q = n - 1 if consts["Incl0"] else n
+        hdr["dt_s"], hdr["dur_s"] = dt_s, max(0.0, (q - 0.5) * dt_s) if q > 0 else 0.0
+    return hdr
 
 
 def replay_graph(chk: Check, g: graph.Graph, consts: dict, *, budget, rng, param, tick, deviate=None,
